@@ -6,7 +6,8 @@
 //           closes the connection 60 ms later
 //     cut: request bytes sent before the action; action: 0 client aborts (RST), 1 client closes gracefully,
 //          2 client waits for the complete response, 3 server object destroyed now, 4 client reads some response then aborts,
-//          5 / 6 whole request, then [surplus] more bytes (4th element), then reset / orderly close
+//          5 / 6 whole request, then [surplus] more bytes (4th element), then reset / orderly close,
+//          7 whole request; when the response has started the handler object is replaced and destroyed; the response must arrive whole
 //   obs  ::= ( live_after fd_delta responses_seen )   live_after: per-connection QObjects still alive under the server
 #include <QCoreApplication>
 #include <QDir>
@@ -142,6 +143,22 @@ static Val run_life(const Val &c)
             cl->abort();
             break;
         case 3: delete server; server = nullptr; destroyed = true; break;
+        case 7: {
+            // the whole request; once the response has started the application replaces the server's handler and destroys the old one;
+            // the transfer that is under way still completes (a response counts only when all announced bytes arrived)
+            cl->write(reqBytes.mid(cut)); cl->flush();
+            pumpTill([&]() { return got.size() >= 1000 || cl->state() == QAbstractSocket::UnconnectedState; }, 2000);
+            if (server && handler) { server->setHandler(nullptr); delete handler; handler = nullptr; }
+            pumpTill([&]() { return cl->state() == QAbstractSocket::UnconnectedState; }, 4000);
+            int i = got.indexOf("\r\n\r\n");
+            int clPos = got.toLower().indexOf("content-length:");
+            if (i > 0 && clPos > 0 && clPos < i) {
+                qint64 want = got.mid(clPos + 15, got.indexOf('\r', clPos) - clPos - 15).trimmed().toLongLong();
+                if (got.size() - i - 4 == want) ++responses;
+            }
+            cl->abort();
+            break;
+        }
         case 5: case 6: {
             // the whole request, then more bytes than any buffer holds (the server has no use for them), then the client goes
             // away (5: reset, 6: orderly): the server must still notice and let go
